@@ -44,8 +44,18 @@ def gen_cases(tier, seed):
             shells.append(s)
         ntot = sum(bases.nfunc(s) for s in shells)
         dm, dcls = bases.rand_sym(rng, ntot, "psd" if i % 2 else "psd-lowrank")
-        cases.append({"shells": shells, "dm": dm, "offset": [float(v) for v in rng.uniform(0, 1, size=3)], "tier": tier,
-                      "classes": ["lmax:%d" % max(ls), "nsh:%d" % nsh, "types:" + "".join(tp), dcls], "cost": ntot * (3 if tier == "thorough" else 1)})
+        offset = [float(v) for v in rng.uniform(0, 1, size=3)]
+        extra = []
+        if i % 4 == 1:
+            # the first shell sits exactly on a node of the (fine) grid, as an atom at the origin of a symmetric uniform
+            # grid does: whole planes of grid points then have a relative coordinate that is exactly zero
+            h = 0.20 if tier == "quick" else 0.16
+            for ax_ in range(3):
+                nodes = np.arange(-11.0 + offset[ax_] * h, 11.0, h)
+                shells[0]["c"][ax_] = float(nodes[int(np.argmin(np.abs(nodes - shells[0]["c"][ax_])))])
+            extra = ["centre-on-grid-node"]
+        cases.append({"shells": shells, "dm": dm, "offset": offset, "tier": tier,
+                      "classes": ["lmax:%d" % max(ls), "nsh:%d" % nsh, "types:" + "".join(tp), dcls] + extra, "cost": ntot * (3 if tier == "thorough" else 1)})
     cases += bases.argrep_variants("C16", seed, tier, cases, 6, ok=lambda c: "shells" in c and c.get("kind") in (None, "whole", "kernel", "perm", "real"))  # constructor arguments in other in-memory representations
     return cases
 
